@@ -373,3 +373,10 @@ PROPS["C03"]["quick"].append({"variant": "default", "cases": 3000, "params": {"s
 PROPS["C03"]["quick"].append({"variant": "explanations", "cases": 400, "params": {"subst": 1}, "timeout": 900})
 PROPS["C03"]["thorough"].append({"variant": "default", "cases": 40000, "params": {"subst": 1, "case_timeout": 120}, "timeout": 3400})
 PROPS["C03"]["thorough"].append({"variant": "explanations", "cases": 3000, "params": {"subst": 1, "case_timeout": 120}, "timeout": 3400})
+
+# C20 with explanations compiled in (quick tier too): explanation texts (ProvenEq::to_string walks a pointer-keyed map) and the dump
+# of syntactic e-nodes with their origin are part of the transcript, compared across threads and across processes
+PROPS["C20"]["quick"].append({"variant": "explanations", "cases": 160, "params": {"processes": 3}, "timeout": 900})
+PROPS["C20"]["quick"].append({"variant": "explanations", "cases": 640, "params": {"processes": 0}, "timeout": 900})
+PROPS["C20"]["thorough"].append({"variant": "explanations", "cases": 2000, "params": {"processes": 3}, "timeout": 3400})
+PROPS["C20"]["floors"]["any"]["explanations_rendered"] = 300
